@@ -13,23 +13,27 @@ MANIFEST = {
     "text": "Lean 4 proof, for every route table and destination, that the model of RouteTable.find_best_route (the loop as written, "
             "including ipaddress' netmask/hostmask parsing and its raise) returns the longest-prefix entry, lowest metric on ties, "
             "earliest entry on full ties, the default route exactly when nothing matches, None exactly when nothing matches and no "
-            "default exists; that hosts send directly when the destination lies in an enabled NIC's subnet and a cache entry exists, "
-            "else via the default gateway; that every receive_frame and every routing hop lowers the TTL by one and drops at TTL < 1, "
-            "so that the events on one frame object (all branches of a flood together) number at most its initial TTL, for every "
-            "topology, state and nesting depth of the forwarding model; that ARP look-ups re-attempt at most twice; and that, under "
-            "unique addresses and a sound ARP cache, a router hop keeps a unicast frame addressed to the owner or a router, so host "
-            "software is handed it only on the owner. Tie: constants, comparison operators and call order regenerated from the source "
-            "(Gen/Forward.lean) + rigs R-route and R-net (whole event streams of generated topologies diffed against the model).",
+            "default exists. For the executable forwarding model (hosts, switches, routers, ARP, ICMP, a UDP service exchange; one "
+            "shared mutable frame per flood) and every topology, state and nesting depth: software is handed a unicast frame only on "
+            "a node owning its destination IP (unconditional, by invariant induction over the whole interpreter); ARP-cache "
+            "soundness is preserved by every processing step under a decidable configuration check; every receive and every routing "
+            "hop lowers the TTL by one and drops at TTL < 1, so the accepted receptions + hops of one frame object, over all flood "
+            "branches, are at most its TTL; ARP look-ups re-attempt at most twice; hosts send on-link destinations directly and "
+            "everything else to the gateway's MAC; routers forward to the next hop of the route find_best_route returns, never "
+            "forward broadcasts, and drop unpermitted service frames first; a ping between two hosts joined by chains of any number "
+            "of directly linked routers with warm caches and routes along the chain succeeds (liveness, partial). Tie: constants, comparison operators, acceptance tests and "
+            "call order regenerated from the source (Gen/Forward.lean) + rigs R-route and R-net (whole event streams, results and "
+            "final tables of generated topologies diffed against the model, plus the property's own oracle on the implementation).",
     "note": "C08-specific: whole-network termination is proved per frame (TTL) and per look-up (flags); that the nesting of ARP "
-            "exchanges ends is checked by the rig (no RecursionError, model never out of fuel), not proved. Metrics are Int in the "
-            "model (float inf/nan not modelled). ACLs other than the default router ACL, services other than ARP/ICMP, wireless "
-            "and link capacity are outside the forwarding model.",
+            "exchanges ends, and that permitted exchanges succeed (liveness), are checked by the rig on the implementation, not "
+            "proved. Metrics are Int in the model (float inf/nan not modelled). ACLs are abstracted to the default router ACL plus "
+            "one permit flag; firewalls, wireless, multi-NIC hosts, power toggles and link capacity are outside the forwarding model.",
     "technique": "Lean 4 theorems over executable models of route selection and frame forwarding; models tied by regenerated tables and "
                  "two differential rigs",
     "design_ref": "5/C08",
 }
 MODULES = ["PrimaiteModel.Props.C08", "PrimaiteModel.Props.C08Forward", "PrimaiteModel.Lemmas.ForwardInv",
-           "PrimaiteModel.Props.C08Addressee"]
+           "PrimaiteModel.Props.C08Addressee", "PrimaiteModel.Props.C08Liveness"]
 EXE = "drv_c08"
 
 
